@@ -121,7 +121,11 @@ def flatten(text, directory, files, defined=None, depth=0):
             if open_cond is None:
                 raise Malformed("endif without if")
             open_cond["lines"].append(raw)
-            if open_cond["directive"]:
+            if any(y.strip().replace(" ", "").startswith("[moleculetype") for y in open_cond["lines"]):
+                # a conditional around a whole molecule type is resolved like one around an #include: the lines of the branch
+                # that holds are kept (unguarded), the others dropped (the reader of the pinned tree does not do this: F20)
+                out.extend(x for kind, x in open_cond["body"] if kind in ("kept", "included"))
+            elif open_cond["directive"]:
                 # included content of active includes is inlined (unguarded, as the condition holds); the data lines of the
                 # conditional stay guarded by it
                 out.extend(x for kind, x in open_cond["body"] if kind == "included")
